@@ -5,6 +5,7 @@ open Pyemv Pyemv.Gen
 
 theorem tools_adjust (k : Bytes) : Gen.tools.adjust_key_parity k = .ok (adjustKeyParity k) := by
   unfold Gen.tools.adjust_key_parity adjustKeyParity
+  try simp only [bind_pure]      -- `do let v ← e; pure v` is `e` (single-exit rewrites)
   simp only [tools_odd_parity, pure, Except.pure, Except.ok.injEq]
   apply List.map_congr_left
   intro b _
